@@ -21,8 +21,10 @@ CLAIM = dict(
           "chip modulo the machine size; leaves exactly the sinks with their cores / endpoint route), and a valid tree "
           "physically connects the source chip to every sink chip over working links; (2) every path a_star returns "
           "starts in `sources`, runs over working links through chips outside `sources` and ends next to the sink, "
-          "and a_star reports the machine disconnected only if no chip of `sources` reaches the sink over working "
-          "links (aStar_complete); (3) copy_and_disconnect_tree keeps only working chips and working links between "
+          "a_star reports the machine disconnected only if no chip of `sources` reaches the sink over working "
+          "links (aStar_complete), and a_star raises nothing else (aStar_only_disconnected: the search loop and the "
+          "path reconstruction cannot fail), so that on a machine the strong-connectivity oracle accepts - the oracle "
+          "is proved sound for physical reachability - a_star always succeeds (aStar_succeeds); (3) copy_and_disconnect_tree keeps only working chips and working links between "
           "adjacent chips; (4) every hop of a longest-dimension-first walk, and every edge ner_net creates, is the "
           "link named by its direction; (5) every hop of every tree the model of route() returns (with or without the "
           "dead-link repair, any processing order of the broken links) follows a working link of a working chip to "
@@ -38,17 +40,16 @@ CLAIM = dict(
           "(routeNet_faultfree); (8) a general lemma: any forest with one entry per chip, one parent per node and a "
           "rank decreasing along edges unfolds to a tree with pairwise distinct chips covering exactly the chips "
           "below the root. NOT proved: chip-distinctness / rootedness / completeness of the leaves after the "
-          "dead-link repair loop (avoidDeadLinks_valid), and the error clause when the repair runs (that a_star and "
-          "the repair loop raise nothing but the disconnected-machine error, and that a strongly connected machine "
-          "never raises it); these are covered per case by exact stage-wise correspondence of the real code with the "
+          "dead-link repair loop (avoidDeadLinks_valid), and the error clause when the repair runs (that the repair "
+          "loop around a_star - subtree enumeration, the `Cycle created` assertion - raises nothing, and that a "
+          "strongly connected machine never yields the disconnected-machine error); these are covered per case by exact stage-wise correspondence of the real code with the "
           "model (recorded random draws and set orders) and by validTree evaluated on every tree the real router "
           "returns, the error clause being decided by a Lean strong-connectivity computation cross-checked against "
           "an independent Python one."),
     design="3/C03",
     note=("PARTIAL: avoidDeadLinks_valid (one parent per node / no cycle after the repair) and route_only_failure "
           "for machines with faults are not proved (route_only_failure is proved for the fault-free machine: "
-          "routeNet_faultfree; aStar_complete is proved; that a_star raises nothing else - fuel / reconstruction - is "
-          "not). nerNet_valid is proved in full, using the C11 theorems through Props/Cross03_11.lean; the earlier "
+          "routeNet_faultfree; aStar_complete and aStar_only_disconnected are proved for every machine). nerNet_valid is proved in full, using the C11 theorems through Props/Cross03_11.lean; the earlier "
           "parts named ..._partial are kept. `fault-free` for a net routed without wrap-around allows exactly the "
           "links that leave the w x h rectangle to be dead. The oracle tape of the model is arbitrary in the "
           "theorems (tape / badDraw errors = the tape handed in is not a recording of a real run). Link/route tables "
@@ -63,7 +64,7 @@ THEOREMS = ["link_tables", "validTree_iff", "validTree_connects", "aStar_path", 
             "cross_link_tables", "cross_lengths", "cross_torusPath", "cross_ldf", "cross_hexagons",
             "cross_linksBetween", "meshLen_is_distance", "torusLen_is_distance", "hexagons_exact", "torus_route",
             "mesh_route", "forest_unfolds", "nerNet_valid", "nerNet_only_oracle_errors", "routeNet_faultfree",
-            "aStar_complete"]
+            "aStar_complete", "aStar_only_disconnected", "stronglyConnected_sound", "aStar_succeeds"]
 
 RULE = ("machines 1x1..12x12 (incl. 1xN, 2xN), torus / mesh / partly wrapped, 0-30% dead directed links (half of them "
         "dead in one direction only), dead chips; one net per case with fan-out 0-12, sinks on the source chip, "
